@@ -524,6 +524,31 @@ func (e *Env) call(x *ECall) SVal {
 		v.T = e.define(p.Name, v.T)
 		vars[p.Name] = v
 	}
+	if m.Opaque && !e.g.reveal[m.Name] {
+		// uninterpreted application over the scalar arguments and the contents of the referenced objects
+		var ts []Term
+		var sorts []string
+		for _, p := range m.Params {
+			v := vars[p.Name]
+			if v.Ty.K == KRef && v.Ty.Elem != nil {
+				for _, lf := range e.g.L.leaves(v.Ty.Elem, 0, "") {
+					t := e.g.load(e.cur, lf.Key, Add(v.T, IntLit(lf.Off)), lf.Sort)
+					ts = append(ts, t)
+					sorts = append(sorts, lf.Sort.SMT())
+				}
+				continue
+			}
+			ts = append(ts, v.T)
+			sorts = append(sorts, v.T.Sort.SMT())
+		}
+		want := e.parseType(m.Ret)
+		fname := "opq_" + m.Name
+		if !e.g.declared[fname] {
+			e.g.declared[fname] = true
+			e.g.decls = append(e.g.decls, fmt.Sprintf("(declare-fun %s (%s) %s)", fname, strings.Join(sorts, " "), want.sort().SMT()))
+		}
+		return SVal{T: app(want.sort(), fname, ts...), Ty: want}
+	}
 	// macro bodies see only their parameters (plus heap states)
 	n := *e
 	n.vars = vars
